@@ -645,6 +645,32 @@ func (v *View) checkC04(res *Result) {
 						}
 					}
 				}
+				// "whenever it returns false ... if it was leader, the demotion callback has been
+				// invoked": when the call itself took the flag down (the flag-down event is on the
+				// call's own goroutine, between call and return), the callback has been entered
+				// before the call returns - not on some other goroutine a moment later. (When
+				// another path ended the term concurrently, its callback is that path's business:
+				// the weaker clause below.)
+				if a.Ret >= 0 {
+					g := v.Ev[a.Call].G
+					for j := a.Call + 1; j < a.Ret; j++ {
+						ev := v.Ev[j]
+						if ev.Kind == "flag" && ev.Inst == a.Inst && !ev.Flag && ev.G == g && v.termEndsAt(a.Inst, j) {
+							res.Obs["c04.ordemote_demoted_by_call"]++
+							entered := false
+							for i := j + 1; i < a.Ret; i++ {
+								if v.Ev[i].Kind == "cb.demote" && v.Ev[i].Inst == a.Inst {
+									entered = true
+									break
+								}
+							}
+							if !entered && v.hasDemoteCallback(a.Inst, j) {
+								res.viol("C04", "ordemote-callback", "demote-callback-not-invoked-when-ordemote-returns", fmt.Sprintf("%s ValidateTokenOrDemote (context %s) took the leadership flag down and returned false at %v before the demotion callback was entered", a.Inst, a.CtxKind, a.RetVT), a.Ret)
+							}
+							break
+						}
+					}
+				}
 				if a.PreFlag {
 					// the term it led at the call must have a demotion callback by the next quiescent point
 					q := v.nextQuiescent(a.Inst, a.Ret)
